@@ -186,7 +186,7 @@ func (e *nilEngine) solve() {
 		e.retPair[f] = rp
 		// predicate candidates: the (last) result is a bool -- a plain predicate, or the ok of a (value, ok) helper
 		if n >= 1 {
-			if b, ok := f.Signature.Results().At(n-1).Type().Underlying().(*types.Basic); ok && b.Kind() == types.Bool {
+			if b, ok := f.Signature.Results().At(n - 1).Type().Underlying().(*types.Basic); ok && b.Kind() == types.Bool {
 				var ps []int
 				for i, prm := range f.Params {
 					if isNillable(prm.Type()) {
